@@ -231,9 +231,9 @@ type c05sWorld struct {
 	nflat      int
 }
 
-func c05sSrvUUID(s int) string   { return fmt.Sprintf("zzzzz-bi6l4-%015x", s) }
-func c05sSrvHost(s int) string   { return fmt.Sprintf("keep%d.c05.test", s) }
-func c05sSrvURL(s int) string    { return fmt.Sprintf("http://keep%d.c05.test:25107", s) }
+func c05sSrvUUID(s int) string    { return fmt.Sprintf("zzzzz-bi6l4-%015x", s) }
+func c05sSrvHost(s int) string    { return fmt.Sprintf("keep%d.c05.test", s) }
+func c05sSrvURL(s int) string     { return fmt.Sprintf("http://keep%d.c05.test:25107", s) }
 func c05sMntUUID(s, j int) string { return fmt.Sprintf("zzzzz-nyw5e-%013x%02x", s, j) }
 
 func c05sNewWorld(c *c05sCase) *c05sWorld {
@@ -1600,12 +1600,13 @@ func c05sReceived(w *c05sWorld, o *c05sObs, bi int) string {
 
 // cause names the cause class of a clause violated for block bi (it only names; it never
 // suppresses):
-//   collection-storage-classes-not-requested  the collection scan did not select
-//                                             storage_classes_desired, the block is referenced by
-//                                             a collection with storage_classes_desired [archive],
-//                                             and the clause holds on the same cluster when the API
-//                                             fake returns the attribute although it was not selected
-//   other                                     anything else
+//
+//	collection-storage-classes-not-requested  the collection scan did not select
+//	                                          storage_classes_desired, the block is referenced by
+//	                                          a collection with storage_classes_desired [archive],
+//	                                          and the clause holds on the same cluster when the API
+//	                                          fake returns the attribute although it was not selected
+//	other                                     anything else
 type c05sCauser struct {
 	w  *c05sWorld
 	o  *c05sObs
@@ -1707,8 +1708,9 @@ func TestVerifC05Sweep(t *testing.T) {
 
 	thorough := vrep.Thorough()
 	// deviation bound by [number of services][total number of mounts]; -1: shape not enumerated.
-	// deviations = read-only flags, named device ids, replication != 1, archive class (the block
-	// states are enumerated completely inside every layout)
+	// deviations = read-only flags, named device ids (all mounts of one shared device together
+	// count once), replication != 1, archive class (the block states are enumerated completely
+	// inside every layout)
 	packedBound := [4][7]int{
 		1: {1: 9, 2: 4},
 		2: {2: 9, 3: 3, 4: 2},
@@ -1774,7 +1776,9 @@ func TestVerifC05Sweep(t *testing.T) {
 		if smallBound[nsrv][nm] > b {
 			b = smallBound[nsrv][nm]
 		}
-		return b
+		// c05Gen counts every named mount as one deviation; here a device shared by k mounts
+		// counts k-1 less (see the leaf), so up to nsrv-1 more of c05Gen's deviations are needed
+		return b + nsrv - 1
 	}
 	mine := func(packed bool) bool {
 		idx++
@@ -1816,7 +1820,17 @@ func TestVerifC05Sweep(t *testing.T) {
 			return
 		}
 		nsrv, nm := len(l.Mounts), l.nMounts()
+		// deviations as in part "layouts", except that the mounts of a shared device together
+		// cost one deviation (the shared device is the dimension this part is about)
 		dev := l.deviations()
+		for _, n := range l.devMountCount() {
+			if n > 1 {
+				dev -= n - 1
+			}
+		}
+		if dev > packedBound[nsrv][nm] && dev > smallBound[nsrv][nm] {
+			return
+		}
 		curDevs = len(l.Devs)
 		if vrep.Mine(0) {
 			layouts++
